@@ -532,4 +532,48 @@ theorem current_line_comparisons {ρ} (hρ : LineRel ρ) {a a' b b' : Nat} (ha :
     (a < b ↔ a' < b') ∧ (a = b ↔ a' = b') ∧ (a > b ↔ a' > b') :=
   ⟨hρ a a' b b' ha hb, hρ.eq_iff ha hb, hρ b b' a a' hb ha⟩
 
+
+/-! ### further non-vacuity examples -/
+
+/-- `a⏎b` → `a␠#c⏎b`: an end-of-line comment preceded by whitespace is a `TriviaEdit.eol`
+(lines unchanged: `shift 0 0` is the identity) -/
+example : TriviaEdit (shift 0 0)
+    [wtok .id 0 0 0, wtok .newLine 0 1 0, wtok .id 1 1 0]
+    [wtok .id 0 0 0, wtok .whitespace 0 0 0, wtok .commentSingle 0 0 0, wtok .newLine 0 1 0, wtok .id 1 1 0] := by
+  refine TriviaEdit.eol [wtok .id 0 0 0] [wtok .whitespace 0 0 0, wtok .commentSingle 0 0 0] [wtok .id 1 1 0]
+    [wtok .id 1 1 0] (wtok .newLine 0 1 0) (wtok .newLine 0 1 0) rfl ?_ ?_ ?_
+  · intro t ht
+    simp at ht
+    rcases ht with rfl | rfl <;> decide
+  · intro t ht _
+    simp at ht
+    subst ht
+    exact ⟨by simp [shift, wtok], by simp [shift, wtok]⟩
+  · exact Moved.cons rfl (fun h => absurd h (by decide))
+      (Moved.cons rfl (fun _ => ⟨rfl, rfl, by simp [shift, wtok], by simp [shift, wtok]⟩) Moved.nil)
+
+/-- `peek_skips_only_trivia` on a concrete accepted continuation line (indented `.` after a line
+break and a comment line, `Greater` rule) -/
+example : ∃ i, peekTokenWithContext Ctx.permissive
+      ⟨wtok .id 0 0 0, [wtok .newLine 0 1 0, wtok .commentSingle 1 1 0, wtok .newLine 1 2 0,
+        wtok .whitespace 2 2 2, wtok (.sym .Dot) 2 2 2]⟩ = some i ∧ i.peekCount = 4 ∧ i.tok = .sym .Dot :=
+  ⟨_, rfl, rfl, rfl⟩
+
+/-- the same token is rejected when the context does not allow line breaks, or under `Equal(0)` -/
+example : peekTokenWithContext Ctx.inline
+      ⟨wtok .id 0 0 0, [wtok .newLine 0 1 0, wtok .whitespace 1 1 2, wtok (.sym .Dot) 1 1 2]⟩ = none ∧
+    peekTokenWithContext { Ctx.permissive with expected := .equal 0 }
+      ⟨wtok .id 0 0 0, [wtok .newLine 0 1 0, wtok .whitespace 1 1 2, wtok (.sym .Dot) 1 1 2]⟩ = none := by
+  decide
+
+/-- `consume_token_with_context` on an indented continuation returns `Equal(indent)` +
+`allow_map_block` (the DESIGN §11 mutant "allow_map_block not set" changes this value) -/
+example : (consumeTokenWithContext Ctx.permissive
+      ⟨wtok (.sym .Assign) 0 0 0, [wtok .newLine 0 1 0, wtok .whitespace 1 1 2, wtok .id 1 1 2]⟩).1 =
+    some (.id, { Ctx.permissive with expected := .equal 2, allowMapBlock := true }) := by
+  decide
+
+example : queuePeek [wtok .id 0 0 0, wtok .number 0 0 0] 1 1 = .ok (some (wtok .number 0 0 0)) 2 :=
+  queue_transparent _ 1 1 (by decide) (by decide)
+
 end KotoVerif.C10
